@@ -12,6 +12,14 @@ claims = {
          "processContext is proved against the property statement itself: on success the directive hangs under anc(k) for the least k whose kind admits it, with no explicit context crossed (or at top level when the chain is exhausted and the kind may stand there; or hoisted for a path-bearing HTTP method under a non-parenthesised URL); on error no such place exists; closeLastExplicitContext / HasUnclosedExplicitContext / processEOF / processContextEnd / processCurrentDirective / next are proved against the ancestor-chain specification; termination of the walks by a ghost depth (TreeWF).",
          "allowedCtx is the repository's parent/child table read as an uninterpreted relation (IsAllowedForDirectiveContext trusted to be a pure function of its arguments); ghost depth updates are ghost code at function exit; paste re-resolution (processDirective) not yet under contract.",
          "contract-based deductive verification: loop invariant over contract-local ancestor function, VCs from go/ssa discharged by z3/cvc5", "DESIGN.md 4.C06"),
+ "C08": ("proof",
+         "Partial claim. Proved: the include-name validator rejects absolute names, backslashes and any '/'-delimited '.' or '..' component other than the whole name (lemma over SMT strings, cvc5); os.Stat is only ever called on Join(Dir(current file), validated name) (ghost typestate lastStat/ioCount); Stack.Push refuses a file already on the include stack and leaves the stack unchanged; Pop/Push keep the stack invariant. Not claimed: 'moving directives into an included file changes nothing' (two runs).",
+         "Assumed: strings.Contains/ContainsRune/filepath.Join/Dir/os.Stat/os.ReadFile contracts (deps.spec); filepath.Join(dir, '..') names a directory (file-system fact); the JSIGHT-in-included-file refusal in processKeyword is verified for safety only.",
+         "contract-based deductive verification + SMT string lemma (cvc5)", "DESIGN.md 4.C08"),
+ "C18": ("proof",
+         "A banned kind yields an error located at the directive and leaves every heap location unchanged, at all four consumers: addDirective, processInclude (before any file access: ghost I/O counter unchanged), addMacro, processPasteDirective.",
+         "unchanged() compares all heap arrays touched by the function on pre-existing objects; the 'option changes nothing else' two-run half is not claimed.",
+         "contract-based deductive verification: conditional frame postconditions, VCs from go/ssa discharged by z3/cvc5", "DESIGN.md 4.C18"),
  "C14": ("proof",
          "Scanner invariant (stack, event queue, ghost lexeme typestate) proved inductive over all state functions and Scanner.Next; emitted lexemes have begin <= end+1, end inside the input, events paired; keyword lexemes spell a directive word (spell tables checked per transition); schema/enum body length is the library's (assumed) length.",
          "Assumes the schema library's Len()/Position() bounds (deps.spec); ghost-state definitions of found/foundAt; strict ordering across lexemes is proved at emission (typestate of found/foundAt), not re-proved for the FIFO queue.",
